@@ -13,7 +13,7 @@ FILES = ["solvor/flow.py", "solvor/types.py"]
 FUNCTIONS = ["solvor.flow.max_flow"]
 BOUNDS = {
     "quick": "every topology on 4 nodes (source 0, sink 3) with <=4 arcs out of the 12 possible (incl. arcs into the source / "
-             "out of the sink, anti-parallel pairs), lexicographic adjacency order, plus a named family of 16 larger/odd "
+             "out of the sink, anti-parallel pairs), lexicographic adjacency order, plus a 40 VERIF_SEED-sampled 4-node multigraphs (repeated arcs in random order) and a named family of 18 larger/odd "
              "topologies (6-7 nodes, parallel arcs, self loop, string labels, reversed adjacency order); every capacity an "
              "unbounded non-negative Int (zero included)",
     "thorough": "every topology on 4 nodes with <=6 arcs, the complete digraph on 4 nodes, named family, and VERIF_SEED-sampled "
@@ -44,6 +44,9 @@ NAMED = {
     # anti-parallel pair used in both directions by successive augmenting paths (s-v-u-t, then s-x-u-v-y-t)
     "antipar_both6": (6, [(0, 1), (0, 2), (1, 3), (1, 4), (2, 3), (3, 5), (3, 1), (4, 5)], 0, 5),
     "antipar_both6b": (6, [(0, 2), (0, 1), (1, 3), (3, 1), (1, 4), (2, 3), (3, 5), (4, 5), (4, 1)], 0, 5),
+    # parallel arcs separated by another arc in the same adjacency list
+    "parallel_split4": (4, [(0, 1), (0, 2), (0, 1), (1, 3), (2, 3)], 0, 3),
+    "parallel_split4b": (4, [(0, 1), (0, 2), (1, 3), (1, 2), (1, 3), (2, 3), (0, 1)], 0, 3),
     "sink_first_order": (5, [(0, 3), (0, 1), (1, 2), (3, 2), (2, 4), (1, 4), (3, 1)], 0, 4),
 }
 STRING_LABELS = {"cancel6", "parallel"}
@@ -118,6 +121,13 @@ def items(tier, rng):
         if n >= 6:
             it["split"] = 5
         out.append(it)
+    # seeded multigraph topologies: arcs drawn with repetition, random order (parallel arcs need not be adjacent)
+    for i in range(40 if tier == "quick" else 400):
+        cand = [(u, v) for u in range(4) for v in range(4) if u != v]
+        base = rng.sample(cand, rng.randint(2, 4))
+        arcs = base + [rng.choice(base) for _ in range(rng.randint(1, 2))]
+        rng.shuffle(arcs)
+        out.append({"name": "multi4_%d" % i, "harness": "h_maxflow", "params": {"n": 4, "arcs": arcs, "source": 0, "sink": 3}})
     for arcs in _topologies(4, max_arcs):
         # arcs that cannot matter: keep all (the code reads them all); skip only graphs without any arc out of the source
         out.append({"name": "t4_%s" % "".join("%d%d" % a for a in arcs), "harness": "h_maxflow",
